@@ -16,9 +16,17 @@ import (
 const cborPath = "github.com/fxamacker/cbor/v2"
 
 func (e *Engine) optField(sv *StructV, typeName, field string) uint64 {
+	if idx, ok := e.Program.fieldCache.Load(typeName + "." + field); ok {
+		t, ok := sv.fields[idx.(int)].(*Term)
+		if !ok || !t.isConst() {
+			e.unsupported("non-constant cbor option " + field)
+		}
+		return t.u64()
+	}
 	st := e.lookupType(cborPath, typeName).Underlying().(*types.Struct)
 	for i := 0; i < st.NumFields(); i++ {
 		if st.Field(i).Name() == field {
+			e.Program.fieldCache.Store(typeName+"."+field, i)
 			t, ok := sv.fields[i].(*Term)
 			if !ok || !t.isConst() {
 				e.unsupported("non-constant cbor option " + field)
@@ -32,6 +40,15 @@ func (e *Engine) optField(sv *StructV, typeName, field string) uint64 {
 
 // cborConst reads a named constant of the cbor package from its SSA (not from my reading of the source).
 func (e *Engine) cborConst(name string) uint64 {
+	if v, ok := e.Program.constCache.Load(name); ok {
+		return v.(uint64)
+	}
+	v := e.cborConst0(name)
+	e.Program.constCache.Store(name, v)
+	return v
+}
+
+func (e *Engine) cborConst0(name string) uint64 {
 	for _, p := range e.prog.AllPackages() {
 		if p.Pkg.Path() == cborPath {
 			if c, ok := p.Members[name].(*ssa.NamedConst); ok {
@@ -767,9 +784,13 @@ func (e *Engine) cborWellformed(opts *StructV, data BytesV) Value {
 }
 
 func (e *Engine) foreignGlobal(name string) *Cell {
+	if g, ok := e.Program.globalCache.Load(name); ok {
+		return e.globalCell(g.(*ssa.Global))
+	}
 	for _, p := range e.prog.AllPackages() {
 		for _, m := range p.Members {
 			if g, ok := m.(*ssa.Global); ok && g.String() == name {
+				e.Program.globalCache.Store(name, g)
 				return e.globalCell(g)
 			}
 		}
